@@ -812,7 +812,9 @@ rt_prop("C07", ["task", "cancel", "comb"],
         "proved semantically (evict_sound, evict_sound_runTask, poll_parks; invariant K2 in Lemmas/K2*.lean, by induction on the poll "
         "for every fuel, world and nesting): one poll of a task block without hosted commands leaves the polling waker registered at "
         "every request / stream leaf, join-handle queue or self-wake it is suspended at, so a task that run_task discards is "
-        "suspended only at requests whose channel has closed (deadOnlyB). Completeness of eviction is "
+        "suspended only at requests whose channel has closed (deadOnlyB). COMPLETENESS, one-request case "
+        "(evict_complete_dropped_request_partial): a task suspended at a one-shot request whose Request was dropped is discarded by "
+        "its next poll (fresh waker serial, task not aborted). Completeness over whole commands is "
         "stated (evict_complete_goal), checked per step by the correspondence on the modelled fragment (`d`, `t` counters). It is "
         "FALSE on the real code outside that fragment: a task that retains a clone of its own waker (FuturesUnordered / "
         "flatten_unordered behind StreamBuilder::then_stream on a stream) and then waits on a dropped one-shot request is never evicted "
